@@ -120,7 +120,8 @@ Definition stmt_ok (te : tenv) (s : stmt) : bool :=
   | _ => false
   end.
 
-(* declarations: distinct names, allowed types, origins well-typed against what is declared so far *)
+(* declarations: distinct names, allowed types, origins well-typed against what is declared BEFORE
+   the declaration (a variable is not in scope in its own origin: the origin is evaluated first) *)
 Fixpoint decls_ok (te : tenv) (ds : list vardecl) : option tenv :=
   match ds with
   | [] => Some te
@@ -135,7 +136,7 @@ Fixpoint decls_ok (te : tenv) (ds : list vardecl) : option tenv :=
             | Some f =>
                 match sig_of (fc_caller f) "origin" with
                 | Some (sig, ret) =>
-                    if args_ok te' (fc_args f) sig && (String.eqb ret ty_any || String.eqb ret t) then decls_ok te' ds' else None
+                    if args_ok te (fc_args f) sig && (String.eqb ret ty_any || String.eqb ret t) then decls_ok te' ds' else None
                 | None => None
                 end
             end
